@@ -52,7 +52,7 @@ fn gen_phased(rng: &mut Rng, i: u64) -> Value {
     ops.push(json!({"op": "unbond_bsei", "who": rng.next() % 3, "units": 1}));
     if disturbed && rng.next() % 2 == 0 { ops.push(json!({"op": "slash", "permille": 1 + rng.next() % 300, "queue": true})); }
     if disturbed && rng.next() % 4 == 0 { ops.push(json!({"op": "donate", "amt": rng.amount(1000).to_string()})); }
-    ops.push(json!({"op": "wait", "dt": if rng.next() % 4 == 0 { 990 } else { 1001 }}));
+    { let dt = [990u64, 1000, 1000, 1001, 1001, 1040][(rng.next() % 6) as usize]; ops.push(json!({"op": "wait", "dt": dt})); }
     for _ in 0..(3 + rng.next() % 4) { ops.push(json!({"op": "withdraw", "who": rng.next() % 3})); if rng.next() % 4 == 0 { ops.push(json!({"op": "wait", "dt": 45})); } }
     let fee = match rng.next() % 3 { 0 => 0, 1 => E18 / 20, _ => rng.below(E18 / 2) };
     json!({"ops": ops, "fee": fee.to_string(), "threshold": E18.to_string(), "validators": 1 + rng.next() % 3})
@@ -94,7 +94,7 @@ impl Driver for HubSeq {
         let mut tok_b = [0u128; 3]; let mut tok_s = [0u128; 3];
         let mut queue: Vec<(u64, u128)> = vec![];                  // (completion time, coins) of running undelegations
         let mut received = [0u128; 3];
-        let mut slashed_since_check = false; let mut ever_disturbed = false;
+        let mut slashed_since_check = false; let mut ever_disturbed = false; let mut donated = false;
         let mut seen: BTreeMap<u64, UnbondHistory> = BTreeMap::new();  // released entries, as first seen
         let mut paid_from: BTreeMap<u64, bool> = BTreeMap::new();      // batches some claimant has already been paid from
         let mut c: BTreeMap<String, bool> = BTreeMap::new();
@@ -123,7 +123,7 @@ impl Driver for HubSeq {
                 "check_slashing" => Some(call(&mut deps, now, "anyone", 0, ExecuteMsg::CheckSlashing {})),
                 "wait" => { now += op["dt"].as_u64().unwrap_or(5); user_op = false; None }
                 "slash" => { let pm = op["permille"].as_u64().unwrap_or(1) as u128; for d in deps.querier.delegations.iter_mut() { d.1 -= d.1 * pm / 1000; } if op["queue"].as_bool().unwrap_or(false) { for q in queue.iter_mut() { q.1 -= q.1 * pm / 1000; } } slashed_since_check = true; ever_disturbed = true; user_op = false; None }
-                "donate" => { deps.querier.balance += u(&op["amt"]); ever_disturbed = true; user_op = false; None }
+                "donate" => { deps.querier.balance += u(&op["amt"]); ever_disturbed = true; donated = true; user_op = false; None }
                 _ => None,
             };
             let mut accepted = false; let mut paid = 0u128; let mut err = None;
@@ -199,7 +199,11 @@ impl Driver for HubSeq {
             let mut hist: Vec<UnbondHistory> = vec![]; let mut id = 1u64;
             while let Ok(h) = read_unbond_history(&deps.storage, id) { hist.push(h); id += 1; }
             and(&mut c, "hs#C08.batches_numbered_consecutively", cb1.id == id && hist.iter().enumerate().all(|(k, h)| h.batch_id == k as u64 + 1));
+            // C08: consecutive undelegations are more than one epoch period apart
+            for w in hist.windows(2) { and(&mut c, "hs#C08.undelegations_more_than_one_epoch_apart", w[1].time > w[0].time + 30); }
             for h in hist.iter() {
+                // C06: without unsolicited transfers no batch gains from its release (a loss is only ever shared out)
+                if h.released && !donated { and(&mut c, "hs#C06.no_batch_gains_at_release", h.bsei_withdraw_rate <= h.bsei_applied_exchange_rate && h.stsei_withdraw_rate <= h.stsei_applied_exchange_rate); }
                 if h.released {
                     and(&mut c, "hs#C08.time_lock", h.time + UNBONDING <= now);
                     match seen.get(&h.batch_id) { Some(old) => and(&mut c, "hs#C08.released_entries_never_change", old == h), None => { seen.insert(h.batch_id, h.clone()); } }
